@@ -2,10 +2,16 @@
 C06, incremental part — "when an input change removes or creates a cycle the results follow".
 
 This part of the property is FALSE for the code as it is.  The witnesses below are kernel-checked
-evaluations of the as-is full engine model (Model/Engine.lean, `Toggles` all false) on the canonical
-replays of corpus/engine-cyclic; the same replays are run on the real engine on every `tools/check
-C06` (where the implementation answers line by line what the model answers here), and with the
-corresponding findings switched to "repaired" the model returns the from-scratch values.
+evaluations of the full engine model (Model/Engine.lean) on the canonical replays of
+corpus/engine-cyclic; the same replays are run on the real engine on every `tools/check C06` (where
+the implementation answers line by line what the as-is model answers), and with the corresponding
+findings switched to "repaired" the model returns the from-scratch values.
+
+`{}` (default `Toggles`) is the code as it is NOW: findings F2 and F16 were fixed in /repo (commits
+531aeb1, 3fbfd09).  `before` is the code before those two fixes; the `…_asis_fails_F2/F16…`
+witnesses are HISTORICAL (they are about `before`), each paired with a `…_fixed_…` theorem stating
+that the current configuration returns the from-scratch answer on the same replay.  F3, F30, F31
+still fail as-is.
 -/
 import QbiceVerif.Model.Engine
 namespace Qbice.Engine.C06
@@ -39,6 +45,9 @@ def threeEpochs (t : Toggles) (p : Program) (ws₁ : List Write) (r₁ : List Ke
     let _ ← session p ws₃
     round t p r₃) {})
 
+/-- the code before the fixes of F2 and F16 -/
+def before : Toggles := { f2 := false, f16 := false }
+
 def input : NodeDef := { kind := .input, dflt := 0, prog := .ret 0 }
 
 /-- corpus/engine-cyclic/F2.txt: `A = if X = 1 then B else 10`, `B = A`.  `A` queried at `X = 1`
@@ -48,12 +57,13 @@ def pF2 : Program :=
     { kind := .normal, dflt := -1, prog := .ask 0 fun x => if x = 1 then .ask 2 .ret else .ret 10 },
     { kind := .normal, dflt := -1, prog := .ask 1 .ret } ]
 
-/-- F2: the code panics (`unwrap` on the missing observation of `B`'s cyclic read). -/
+/-- F2 (historical): the code before 531aeb1 panics (`unwrap` on the missing observation of `B`'s
+    cyclic read). -/
 theorem cycle_incremental_asis_fails_F2 :
-    twoEpochs {} pF2 [.set 0 1] [1] [.set 0 3] [2] = .panic := by decide +kernel
+    twoEpochs before pF2 [.set 0 1] [1] [.set 0 3] [2] = .panic := by decide +kernel
 
-theorem cycle_incremental_repaired_F2 :
-    twoEpochs { f2 := true } pF2 [.set 0 1] [1] [.set 0 3] [2] = .vals [10] := by decide +kernel
+theorem cycle_incremental_fixed_F2 :
+    twoEpochs {} pF2 [.set 0 1] [1] [.set 0 3] [2] = .vals [10] := by decide +kernel
 
 /-- corpus/engine-cyclic/F3.txt: `A = if X = 1 then B else -1`, `B = A + 21`.  After the cycle is
     removed `A`'s real value `-1` has the fingerprint of `A`'s cycle default. -/
@@ -67,7 +77,7 @@ theorem cycle_incremental_asis_fails_F3 :
     twoEpochs {} pF3 [.set 0 1] [2] [.set 0 3] [2] = .vals [-1] := by decide +kernel
 
 theorem cycle_incremental_repaired_F3 :
-    twoEpochs { f2 := true, f3 := true } pF3 [.set 0 1] [2] [.set 0 3] [2] = .vals [20] := by decide +kernel
+    twoEpochs { f3 := true } pF3 [.set 0 1] [2] [.set 0 3] [2] = .vals [20] := by decide +kernel
 
 /-- corpus/engine-cyclic/F16-value.txt: `A = if X = 1 then B else -1`, `B = A + 1`; the edit
     `X := 1` CREATES the cycle `B → A → B` while `B` is being repaired. -/
@@ -76,13 +86,13 @@ def pF16 : Program :=
     { kind := .normal, dflt := -1, prog := .ask 0 fun x => if x = 1 then .ask 2 .ret else .ret (-1) },
     { kind := .normal, dflt := -1, prog := .ask 1 fun a => .ret (a + 1) } ]
 
-/-- F16 (value): `B` is cleaned with its old value `0` although it has just been marked as a member
-    of the cycle; from scratch both members have their default `-1`. -/
+/-- F16 (value, historical): before 3fbfd09 `B` is cleaned with its old value `0` although it has
+    just been marked as a member of the cycle; from scratch both members have their default `-1`. -/
 theorem cycle_incremental_asis_fails_F16_value :
-    twoEpochs {} pF16 [.set 0 0] [2] [.set 0 1] [2] = .vals [0] := by decide +kernel
+    twoEpochs before pF16 [.set 0 0] [2] [.set 0 1] [2] = .vals [0] := by decide +kernel
 
-theorem cycle_incremental_repaired_F16_value :
-    twoEpochs { f16 := true } pF16 [.set 0 0] [2] [.set 0 1] [2] = .vals [-1] := by decide +kernel
+theorem cycle_incremental_fixed_F16_value :
+    twoEpochs {} pF16 [.set 0 0] [2] [.set 0 1] [2] = .vals [-1] := by decide +kernel
 
 /-- corpus/engine-cyclic/F16-hang.txt: a cycle through a firewall and three projections, created by
     the edit; queries in Repair mode keep their registered callees, the registered-callee graph of
@@ -97,10 +107,14 @@ def pF16h : Program :=
     { kind := .projection, dflt := -3, prog := .ask 3 fun x => if x = 0 then .ret 0 else .ask 5 .ret },
     { kind := .normal, dflt := -1, prog := .ask 6 .ret } ]
 
-/-- F16 (hang): the request never completes (the model's `deadlock` outcome; the real engine is
-    stopped by the harness watchdog). -/
+/-- F16 (hang, historical): before 3fbfd09 the request never completes (the model's `deadlock`
+    outcome; the real engine was stopped by the harness watchdog). -/
 theorem cycle_incremental_asis_fails_F16_hang :
-    twoEpochs {} pF16h [.set 0 0] [7] [.set 0 3] [7] = .hang := by decide +kernel
+    twoEpochs before pF16h [.set 0 0] [7] [.set 0 3] [7] = .hang := by decide +kernel
+
+/-- now the request completes with the from-scratch value (the default of the projection `N6`) -/
+theorem cycle_incremental_fixed_F16_hang :
+    twoEpochs {} pF16h [.set 0 0] [7] [.set 0 3] [7] = .vals [-3] := by decide +kernel
 
 /-- corpus/engine-cyclic/F30-tfc-self-recursion.txt: firewall `F = X + N`, `N = F`: `F` ends up in
     its own transitive-firewall-callee set and a later repair of `F` requests itself forever. -/
@@ -125,14 +139,14 @@ def pF31 : Program :=
 theorem cycle_incremental_asis_fails_F31 :
     threeEpochs {} pF31 [.set 0 3] [3] [.set 0 2] [3] [.set 0 3] [3] = .vals [-1] := by decide +kernel
 
-/-- F2, F3, F16 repaired are not enough for this history … -/
+/-- F3 repaired (with F2, F16 fixed) is not enough for this history … -/
 theorem cycle_incremental_F31_needs_its_own_repair :
-    threeEpochs { f2 := true, f3 := true, f16 := true } pF31 [.set 0 3] [3] [.set 0 2] [3] [.set 0 3] [3]
+    threeEpochs { f3 := true } pF31 [.set 0 3] [3] [.set 0 2] [3] [.set 0 3] [3]
       = .vals [-1] := by decide +kernel
 
 /-- … with F31 repaired as well the model returns the from-scratch value. -/
 theorem cycle_incremental_repaired_F31 :
-    threeEpochs { f2 := true, f3 := true, f16 := true, f31 := true } pF31 [.set 0 3] [3] [.set 0 2] [3] [.set 0 3] [3]
+    threeEpochs { f3 := true, f31 := true } pF31 [.set 0 3] [3] [.set 0 2] [3] [.set 0 3] [3]
       = .vals [4] := by decide +kernel
 
 end Qbice.Engine.C06
